@@ -159,12 +159,20 @@ func recvTypeName(fd *ast.FuncDecl) string {
 }
 
 func init() {
+	register(&core.Rule{ID: "S11h", Min: 2, Arm64: true,
+		Doc: "The sorter rows of S11 alone: the heap-sort fallback of the map-key sorter (alg.heapSort, alg.siftDown) takes every comparison and loop decision of sort.heapSort / sort.siftDown of the analysing toolchain's GOROOT, in the same order (with `data.Less(a, b)` read as `kvs[a].k < kvs[b].k`): SortMapKeys then yields byte order also for the partitions that exhaust the radix sort's depth budget.",
+		Run: func(c *core.Ctx) {
+			runS11f(c, func(cn string) bool { return strings.Contains(cn, "heapSort") || strings.Contains(cn, "siftDown") })
+		}})
 	register(&core.Rule{ID: "S11", Min: 11,
 		Doc: "Sibling cross-check against the standard library: for sonic's copies of encoding/json's field-resolution functions (typeFields, dominantField, parseTag, isValidTag, tagOptions.Contains, foldName, appendFoldedName, foldRune), the sequence of branch conditions and calls of the encoding/json function in the analysing toolchain's GOROOT is a subsequence of the sequence in sonic's function (function literals excluded; listed renames/ignores), so sonic's resolver takes every decision encoding/json takes, in the same order; likewise the heap-sort fallback of the map-key sorter (alg.heapSort, alg.siftDown) against sort.heapSort / sort.siftDown, comparing branch conditions and loop headers; and alg.IsValidNumber against encoding/json.isValidNumber.",
 		Run: runS11})
 }
 
-func runS11(c *core.Ctx) {
+func runS11(c0 *core.Ctx) { runS11f(c0, nil) }
+
+func runS11f(c0 *core.Ctx, keep func(string) bool) {
+	c := &filtCtx{c0, keep}
 	stdCache := map[string]map[string]*ast.FuncDecl{}
 	var res []*regexp.Regexp
 	for _, rw := range stdRewrites {
